@@ -11,6 +11,9 @@
 (*             out     [n, gates] read back by translate_circuit(x,         *)
 (*                     "tangelo", source=fmt)                               *)
 (*             after   [n, gates] the SOURCE circuit after both calls       *)
+(*  "convert": a "circuit" job with a direct conversion in between:        *)
+(*             fmt2, cstatus "converted" | "refused", ctype (Python type of *)
+(*             the converted document), same_direct (one-way targets)       *)
 (*  "gate":    g, status "evaluated" | "eval-raised", out = eval(repr(g)),  *)
 (*             after = g after the call                                     *)
 (*  "op":      n, terms, status "converted" | "raised", out (terms),         *)
@@ -41,6 +44,26 @@ CircuitVerdict(j) ==
      ELSE LET d == CircDiff(src, j.out) IN
           IF d = "equal" THEN (IF cls = "unsupported" THEN "drift-unsupported-roundtrips" ELSE "ok") ELSE d
 
+\* direct conversion fmt -> fmt2:  cstatus "converted" | "refused", ctype = Python type of the converted document,
+\* two-way targets: istatus / out as above (read with source = fmt2);  one-way targets (cirq, sympy): same_direct =
+\* the converted document equals translate_circuit(c, fmt2)
+ConvertVerdict(j) ==
+  LET src  == [n |-> j.n, gates |-> j.gates]
+      cls1 == CircClass(j.gates, j.fmt)
+      cls2 == CircClass(j.gates, j.fmt2)
+  IN IF ~(\A x \in 1..Len(j.gates) : GateOK(j.gates[x], j.n)) THEN "malformed-input"
+     ELSE IF CircDiff(src, j.after) # "equal" THEN "source-mutated"
+     ELSE IF j.status = "refused" THEN (IF cls1 = "supported" THEN "refused-supported" ELSE "ok-refused")
+     ELSE IF j.cstatus = "refused"
+          THEN (IF cls1 = "supported" /\ cls2 = "supported" THEN "conversion-refused-supported" ELSE "ok-refused")
+     ELSE IF j.ctype # ExpectedType(j.fmt2) THEN "converted-document-has-wrong-type"
+     ELSE IF j.fmt2 \in OneWay
+          THEN (IF ~j.same_direct THEN "converted-differs-from-direct-export"
+                ELSE IF "unsupported" \in {cls1, cls2} THEN "drift-unsupported-roundtrips" ELSE "ok")
+     ELSE IF j.istatus # "imported" THEN "import-raised"
+     ELSE LET d == CircDiff(src, j.out) IN
+          IF d = "equal" THEN (IF "unsupported" \in {cls1, cls2} THEN "drift-unsupported-roundtrips" ELSE "ok") ELSE d
+
 GateVerdict(j) ==
   IF GateDiffFull(j.g, j.after) # "equal" THEN "source-mutated"
   ELSE IF j.status # "evaluated" THEN "eval-raised"
@@ -54,6 +77,7 @@ OpVerdict(j) ==
 
 Verdict(j) ==
   CASE j.kind = "circuit" -> CircuitVerdict(j)
+    [] j.kind = "convert" -> ConvertVerdict(j)
     [] j.kind = "gate"    -> GateVerdict(j)
     [] j.kind = "op"      -> OpVerdict(j)
     [] OTHER              -> "malformed-job"
